@@ -89,7 +89,8 @@ impl<S: BaseFloat> Quaternion<S> {
         } else if ulps_eq!(dot, &-mag_avg, epsilon = eps) {
             let axis = fallback.unwrap_or_else(|| {
                 let mut v = Vector3::unit_x().cross(src);
-                if ulps_eq!(v, &Zero::zero()) {
+                // `v` scales with the length of `src`: so does the tolerance
+                if ulps_eq!(v, &Zero::zero(), epsilon = S::default_epsilon() * src.magnitude()) {
                     v = Vector3::unit_y().cross(src);
                 }
                 v.normalize()
